@@ -38,7 +38,7 @@ func checkC03(c *Ctx) {
 	r.RuleText = "C03-LAY per unit; C03-REG (table constants = registry); C03-XR (C15-BT/TS/LAY)."
 	r.Trusted = []string{"go/ssa", "checker/bits transfer functions", "layout tables props/layout.go (RFC 3550, 4585, 5104, 6051, 8888, transport-wide-cc and REMB drafts)", "registry checker/spec"}
 	r.Assume = []string{"values fit their wire fields (C08 decides rejection of the rest)"}
-	r.NotCov("header length field (C05-HDR); variable tails (SDES text, BYE reason, APP data, profile extensions): only their start is placed; StatusVectorChunk symbols, TWCC chunks/deltas inside the packet (interface calls), CCFB report blocks (data-dependent offsets), REMB exponent/mantissa (floating point, C14); SliceLossIndication's packet type octet (finding F10a under C07)")
+	r.NotCov("header length field (C05-HDR); variable tails (SDES text, BYE reason, APP data, profile extensions): only their start is placed; StatusVectorChunk with a partly filled symbol list, TWCC chunks/deltas inside the packet (interface calls; their sizes and cursor are C09-SIZE), CCFB report blocks (data-dependent offsets), REMB exponent/mantissa (floating point, C14); SliceLossIndication's packet type octet (finding F10a under C07)")
 
 	runs := runLayouts(c)
 	for _, name := range layoutOrder() {
@@ -158,11 +158,11 @@ func c15TypeSpecific(c *Ctx, rule string) {
 func checkC04(c *Ctx) {
 	r := c.Rep
 	p := c.Prog
-	r.Explain = "Bit-provenance abstract interpretation of every Unmarshal on an unconstrained input: the decoder's map field bit <- input octet/bit at its successful returns, valid for every input, is compared with the RFC layout tables: each field is taken from exactly its specified wire bits (big-endian), bits above the wire width are zero, and no field depends on a reserved or padding bit (the comparison is an equality of maps, so a stray dependency shows). CNT: for SR, RR and SDES the numeric engine entails at every nil-error return that the number of decoded elements equals the header count (an inflated count cannot be accepted). ACC: for each of 28 boundary shapes (a datagram of fixed length with a few fixed octets, every other octet arbitrary: padded APP, BYE with and without reason, empty lists, minimal feedback packets, unknown XR block, a padded frame followed by another) the constant propagator evaluates the decoder on the whole shape and must reach a return without a definite error: a shape whose every return carries a non-nil error is a valid encoding the decoder always rejects. XR: unpackBlockHeader inverts the RFC 3611 type-specific octet, the block type switch has UnknownReportBlock as default arm, blocks are split at 4*(BlockLength+1) (C15's rules)."
+	r.Explain = "Bit-provenance abstract interpretation of every Unmarshal on an unconstrained input: the decoder's map field bit <- input octet/bit at its successful returns, valid for every input, is compared with the RFC layout tables: each field is taken from exactly its specified wire bits (big-endian), bits above the wire width are zero, and no field depends on a reserved or padding bit (the comparison is an equality of maps, so a stray dependency shows). CNT: for SR, RR, SDES and BYE the numeric engine entails at every nil-error return that the number of decoded elements equals the header count (an inflated count cannot be accepted; for BYE, whose list is allocated from the count, also that the announced sources lie inside the packet). ACC: for each of 28 boundary shapes (a datagram of fixed length with a few fixed octets, every other octet arbitrary: padded APP, BYE with and without reason, empty lists, minimal feedback packets, unknown XR block, a padded frame followed by another) the constant propagator evaluates the decoder on the whole shape and must reach a return without a definite error: a shape whose every return carries a non-nil error is a valid encoding the decoder always rejects. XR: unpackBlockHeader inverts the RFC 3611 type-specific octet, the block type switch has UnknownReportBlock as default arm, blocks are split at 4*(BlockLength+1) (C15's rules)."
 	r.RuleText = "C04-LAY per unit; C04-CNT; C04-FRESH (a composite appended to a list inside a decoder loop is allocated or wholly re-assigned inside that loop); C04-ACC (a table of RFC-valid boundary shapes — fixed length, some octets fixed, the rest arbitrary — none of which may be rejected on every path); C04-XR (C15-TS/DSP/BL)."
 	r.Trusted = []string{"go/ssa", "checker/bits", "checker/num", "checker/pe (conditional constant propagation)", "layout tables props/layout.go", "shape table props/c04acc.go (28 RFC-valid boundary shapes, written from RFC 3550/4585/5104/6051/3611/8888 and the REMB draft)"}
 	r.Assume = []string{"decoder receivers are zero values"}
-	r.NotCov("alternative TWCC chunkings and StatusVectorChunk symbols, RecvDelta scaling (C13), REMB mantissa/exponent arithmetic (C14), SDES/BYE texts, APP padding, CCFB report blocks (data-dependent offsets); BYE's count guard (its Sources list is filled by an index loop the bit engine does not summarise)")
+	r.NotCov("alternative TWCC chunkings (accepted, C04-ACC; equal decoding is a run-time relation), RecvDelta scaling (C13), REMB mantissa/exponent arithmetic (C14), SDES/BYE texts, APP padding, CCFB report blocks (data-dependent offsets)")
 
 	runs := runLayouts(c)
 	for _, name := range layoutOrder() {
@@ -254,7 +254,10 @@ func c04Counts(c *Ctx) {
 	r := c.Rep
 	p := c.Prog
 	hidx, _ := headerFieldIdx(p)
-	for _, t := range []struct{ typ, list string }{{"SenderReport", "Reports"}, {"ReceiverReport", "Reports"}, {"SourceDescription", "Chunks"}} {
+	for _, t := range []struct {
+		typ, list string
+		elem      int64 // >0: additionally headerLength + elem*Count <= len(input) at every nil-error return
+	}{{"SenderReport", "Reports", 0}, {"ReceiverReport", "Reports", 0}, {"SourceDescription", "Chunks", 0}, {"Goodbye", "Sources", 4}} {
 		fn := p.Func("*" + t.typ + ".Unmarshal")
 		named := p.Named(t.typ)
 		if fn == nil || named == nil {
@@ -292,13 +295,23 @@ func c04Counts(c *Ctx) {
 			n++
 			cnt := e.AllocFieldExpr(rr.St, hal, hidx["Count"])
 			ln := e.PtrFieldLenExpr(rr.St, fn.Params[0], li)
-			if !cnt.Bad && !ln.Bad && rr.St.EntailsEq(ln.Sub(cnt)) {
+			fits := true
+			if t.elem > 0 {
+				// the Count elements announced by the header lie inside the packet
+				in := e.LenExprOf(rr.St, fn.Params[1])
+				fits = !in.Bad && !cnt.Bad && rr.St.Entails(in.Sub(cnt.Scale(t.elem)).AddConst(-4))
+			}
+			if !cnt.Bad && !ln.Bad && rr.St.EntailsEq(ln.Sub(cnt)) && fits {
 				okc++
 			} else {
 				det = fmt.Sprintf("len(%s)=%s, Count=%s", t.list, e.LinString(rr.St.Subst(ln)), e.LinString(rr.St.Subst(cnt)))
 			}
 		}
-		r.Check(n > 0 && okc == n, "C04-CNT", key, p.Pos(fn.Pos()), fmt.Sprintf("len(%s) = header count entailed at all %d nil-error return(s)", t.list, n), det)
+		okDet := fmt.Sprintf("len(%s) = header count entailed at all %d nil-error return(s)", t.list, n)
+		if t.elem > 0 {
+			okDet += fmt.Sprintf("; 4 + %d*count <= len(input) entailed as well (a count that claims more elements than the packet holds is rejected)", t.elem)
+		}
+		r.Check(n > 0 && okc == n, "C04-CNT", key, p.Pos(fn.Pos()), okDet, det)
 	}
 }
 
@@ -335,7 +348,7 @@ func checkC02(c *Ctx) {
 			r.Unk("C02-LAY", name+"/encode-decode-identity", pos, fmt.Sprintf("encoder: %v; decoder: %v", lr.encErr, lr.decErr))
 			continue
 		}
-		n, bad := roundTrip(lr.enc, lr.dec, lr.u.decAlt, layoutFields(lr.u))
+		n, bad := roundTrip(lr.enc, lr.dec, lr.u.decAlt, layoutFields(lr.u), lr.u.encConst)
 		r.Check(len(bad) == 0 && n > 0, "C02-LAY", name+"/encode-decode-identity", pos, fmt.Sprintf("%d bit correspondences: every encoded field bit is decoded from the octet/bit it was written to, and vice versa", n), trunc(bad, 3))
 		// SYM
 		encF := map[string]bool{}
@@ -345,6 +358,9 @@ func checkC02(c *Ctx) {
 					encF[strings.TrimPrefix(b.Src, "F:")] = true
 				}
 			}
+		}
+		for f := range lr.u.encConst {
+			encF[f] = true // evaluated with this field fixed: its bits reach the wire as constants (placed by C02-LAY)
 		}
 		dec := lr.dec
 		if lr.u.decAlt != "" {
